@@ -2408,3 +2408,102 @@ func ruleFrameClaimAtomic(c *Ctx, rule string, vf *vmFacts) {
 		c.Und(rule, "increment of VM.frameIndex in an error-returning routine", "-", "none found")
 	}
 }
+
+// ---- C16/search-last-le (also C04) -------------------------------------------------------------------------------------------
+// A position is mapped to its file (and its line) by "the last entry whose
+// start is <= the position": sort.Search(n, pred) - 1 is that index exactly when
+// pred(i) is `entry(i) > x` (strictly greater).  With `>=` the first byte of
+// every file (line) is attributed to the previous file (line): errors at the
+// start of an imported module are reported in the wrong file.
+func ruleSearchLastLE(c *Ctx, rule string) {
+	l := c.L
+	n := 0
+	for _, fn := range l.RepoFuncs(func(pp string) bool { return pp == parserPath }) {
+		eachInstr(fn, func(ins ssa.Instruction) {
+			cl, ok := ins.(*ssa.Call)
+			if !ok {
+				return
+			}
+			f := cl.Call.StaticCallee()
+			if f == nil || f.Pkg == nil || f.Pkg.Pkg.Path() != "sort" || f.Name() != "Search" || len(cl.Call.Args) != 2 {
+				return
+			}
+			// used as Search(...) - 1
+			minus1 := false
+			if cl.Referrers() != nil {
+				for _, r := range *cl.Referrers() {
+					if bo, ok := r.(*ssa.BinOp); ok && bo.Op == token.SUB && bo.X == ssa.Value(cl) {
+						if k, ok := constInt64(bo.Y); ok && k == 1 {
+							minus1 = true
+						}
+					}
+				}
+			}
+			if !minus1 {
+				return
+			}
+			var pred *ssa.Function
+			switch v := cl.Call.Args[1].(type) {
+			case *ssa.MakeClosure:
+				pred, _ = v.Fn.(*ssa.Function)
+			case *ssa.Function:
+				pred = v
+			}
+			if pred == nil || len(pred.Blocks) == 0 {
+				return
+			}
+			n++
+			strict := false
+			eachInstr(pred, func(x ssa.Instruction) {
+				r, ok := x.(*ssa.Return)
+				if !ok || len(r.Results) != 1 {
+					return
+				}
+				bo, ok := r.Results[0].(*ssa.BinOp)
+				if !ok {
+					return
+				}
+				// elem > x   or   x < elem, where x is the captured key
+				isKey := func(v ssa.Value) bool {
+					if ld, ok := v.(*ssa.UnOp); ok {
+						_, fv := ld.X.(*ssa.FreeVar)
+						return fv
+					}
+					_, fv := v.(*ssa.FreeVar)
+					return fv
+				}
+				if (bo.Op == token.GTR && isKey(bo.Y)) || (bo.Op == token.LSS && isKey(bo.X)) {
+					strict = true
+				}
+			})
+			c.Check(rule, fnName(fn)+" | sort.Search(...) - 1", l.Pos(cl.Pos()), strict, "the predicate is `entry > key`: the result is the last entry <= key",
+				"the index is computed as sort.Search(n, pred) - 1 with a predicate other than `entry > key`: the first position of every file (line) is looked up in the previous one, so errors at the very start of an imported source module (also after an encode / decode round trip) are reported with the wrong file")
+		})
+	}
+	if n == 0 {
+		c.Und(rule, "position lookups", "-", "no sort.Search(...) - 1 lookup in package parser")
+	}
+}
+
+// ---- C16/trace-dedup-adjacent ----------------------------------------------------------------------------------------------------
+// addTrace drops a position only when it repeats the LAST recorded one (the
+// same statement seen again by the next unwinding step).  The function has no
+// loop over the trace: a position that occurs earlier in the trace is a genuine
+// frame (recursion through another call site and back) and must be recorded.
+func ruleTraceDedupAdjacent(c *Ctx, rule string) {
+	l := c.L
+	at := l.Method(modPath, "RuntimeError", "addTrace")
+	if !c.Anchor(rule, "RuntimeError.addTrace", at != nil) {
+		return
+	}
+	loop := false
+	for _, b := range at.Blocks {
+		for _, s := range b.Succs {
+			if s == b || blockReaches(s, b) {
+				loop = true
+			}
+		}
+	}
+	c.Check(rule, "RuntimeError.addTrace | which earlier positions suppress a new one", l.Pos(at.Pos()), !loop, "no loop: only the last recorded position is compared",
+		"addTrace walks over the recorded trace: a position is suppressed when it occurs anywhere earlier, so frames of a recursion that passes through the same statement again are missing from the reported stack trace")
+}
